@@ -442,7 +442,7 @@ def check_purity(ctx, pid, consulted):
                                'shared by every call that leaves the parameter out: results depend on earlier calls (on other objects, '
                                'too)' % (key, pn, ast.unparse(d)), '%s:%d' % (fi.module.relpath, written.lineno))
             for n in ast.walk(fi.node):
-                if isinstance(n, (ast.Global, ast.Nonlocal)):
+                if isinstance(n, ast.Global):         # (`nonlocal` rebinds a local of the enclosing *function*: call-local state)
                     ob.require(False, '%s declares %s: it depends on or changes module-level state' % (key, ast.unparse(n)),
                                '%s:%d' % (fi.module.relpath, n.lineno))
                 c = _container_of(p, fi.module, n) if isinstance(n, (ast.Name, ast.Attribute)) and isinstance(n.ctx, ast.Load) else None
